@@ -124,6 +124,7 @@ class Fn:
         self.uses_len_vertices = False
         self.extra_int_params = []   # e.g. number of input vertices of chain_of_vertices
         self.input_mesh = None
+        self.geom_deps = set()    # helpers of mouette/geometry/rotations.py called by this function
 
     def _check_defaults_and_param_mutation(self):
         """Defaults are evaluated once: only immutable constants are fine as they are; a `Vec(<numbers>)` default (a
@@ -375,6 +376,9 @@ class Fn:
             if e.attr in ("x", "y", "z") :
                 return "(v%s %s)" % (e.attr, self.tr_vec(e.value, env))
             self.fail(e, "unsupported attribute in a numeric expression")
+        if isinstance(e, ast.Subscript) and isinstance(e.slice, ast.Constant) and e.slice.value in (0, 1, 2) \
+                and type(e.slice.value) is int and isinstance(e.value, ast.Name) and env.get(e.value.id)[0] == "vec":
+            return "(v%s %s)" % ("xyz"[e.slice.value], env.get(e.value.id)[1])
         if isinstance(e, ast.BinOp):
             if isinstance(e.op, ast.Pow):
                 if isinstance(e.right, ast.Constant) and e.right.value == 2:
@@ -426,9 +430,11 @@ class Fn:
             if f == "Vec.normalized" and len(e.args) == 1:
                 return "(vnormalized O %s)" % self.tr_vec(e.args[0], env)
             if f == "rotate_2d" and len(e.args) == 2:
-                return "(rotate_2d O %s %s)" % (self.tr_vec(e.args[0], env), self.tr_num(e.args[1], env))
+                self.geom_deps.add("rotate_2d")
+                return "(geom_rotate_2d O %s %s)" % (self.tr_vec(e.args[0], env), self.tr_num(e.args[1], env))
             if f == "rotate_around_axis" and len(e.args) == 3:
-                return "(rotate_around_axis O %s %s %s)" % (self.tr_vec(e.args[0], env), self.tr_vec(e.args[1], env),
+                self.geom_deps.add("rotate_around_axis")
+                return "(geom_rotate_around_axis O %s %s %s)" % (self.tr_vec(e.args[0], env), self.tr_vec(e.args[1], env),
                                                             self.tr_num(e.args[2], env))
             self.fail(e, "unsupported call in a vector expression")
         if isinstance(e, ast.BinOp):
@@ -1578,11 +1584,150 @@ FORWARDERS = [
 ITER_REL = "mouette/utils/iterators.py"
 
 
+GEOM_REL = "mouette/geometry/rotations.py"
+GEOM_INIT = "mouette/geometry/__init__.py"
+
+
+def geometry_helper(fn):
+    """mouette/geometry/rotations.py: a straight-line vector function
+         a, b = <num>, <num> | x = Vec(x) | out = Vec(0., 0.[, 0.]) | out.x = <num> | u, v, w = <vec> | x = <num or vec>
+         if <test>: return <vec>      (early return)        |  return <vec>
+       -> Definition geom_<name> O <params> : vec T.  Anything else fails closed."""
+    cnt = [0]
+
+    def fresh(nm):
+        cnt[0] += 1
+        return "%s_%d" % (q(nm), cnt[0])
+
+    def fbool(e, env):
+        if isinstance(e, ast.BoolOp) and isinstance(e.op, (ast.Or, ast.And)):
+            op = "orb" if isinstance(e.op, ast.Or) else "andb"
+            t = fbool(e.values[0], env)
+            for x in e.values[1:]:
+                t = "(%s %s %s)" % (op, t, fbool(x, env))
+            return t
+        if isinstance(e, ast.Compare) and len(e.ops) == 1 and isinstance(e.ops[0], (ast.Lt, ast.Gt)):
+            l, r = e.left, e.comparators[0]
+            if isinstance(e.ops[0], ast.Gt):
+                l, r = r, l
+            if isinstance(l, ast.Call) and T.dotted(l.func) == "abs" and len(l.args) == 1 and not l.keywords:
+                return "(oabs_lt O %s %s)" % (fn.tr_num(l.args[0], env), fn.tr_num(r, env))
+            return "(oltb O %s %s)" % (fn.tr_num(l, env), fn.tr_num(r, env))
+        fn.fail(e, "unsupported test in a geometry helper")
+
+    def vec_term(name, env, comps, node):
+        if name in comps:
+            return "(%s, %s, %s)" % tuple(comps[name])
+        k, t = env.get(name)
+        if k == "vec":
+            return t
+        fn.fail(node, "%s is not a vector" % name)
+
+    def go(stmts, env, comps):
+        if not stmts:
+            fn.fail(fn.node, "geometry helper falls off its end without a return")
+        st, rest = stmts[0], stmts[1:]
+        if isinstance(st, ast.Return):
+            if rest or not isinstance(st.value, ast.Name):
+                fn.fail(st, "unsupported return in a geometry helper")
+            return vec_term(st.value.id, env, comps, st)
+        if isinstance(st, ast.If):
+            if st.orelse or len(st.body) != 1 or not isinstance(st.body[0], ast.Return) or not isinstance(st.body[0].value, ast.Name):
+                fn.fail(st, "only `if <test>: return <vector>` is understood in a geometry helper")
+            return "(if %s then %s else %s)" % (fbool(st.test, env), vec_term(st.body[0].value.id, env, comps, st), go(rest, env, comps))
+        if not (isinstance(st, ast.Assign) and len(st.targets) == 1):
+            fn.fail(st, "unsupported statement in a geometry helper")
+        tg, v = st.targets[0], st.value
+        if isinstance(tg, ast.Tuple) and all(isinstance(x, ast.Name) for x in tg.elts):
+            names = [x.id for x in tg.elts]
+            if isinstance(v, ast.Tuple) and len(v.elts) == len(names):
+                terms = [fn.tr_num(x, env) for x in v.elts]      # all evaluated before any is bound
+            elif isinstance(v, ast.Name) and len(names) == 3 and (v.id in comps or env.get(v.id)[0] == "vec"):
+                t = vec_term(v.id, env, comps, st)
+                terms = ["(vx %s)" % t, "(vy %s)" % t, "(vz %s)" % t]
+            else:
+                fn.fail(st, "unsupported tuple assignment in a geometry helper")
+            gs = [fresh(n) for n in names]
+            env2 = env
+            for n, g in zip(names, gs):
+                comps.pop(n, None)
+                env2 = env2.bind(n, "float", g)
+            body = go(rest, env2, comps)
+            for g, t in reversed(list(zip(gs, terms))):
+                body = "(let %s := %s in %s)" % (g, t, body)
+            return body
+        if isinstance(tg, ast.Attribute) and tg.attr in ("x", "y", "z") and isinstance(tg.value, ast.Name) and tg.value.id in comps:
+            k = "xyz".index(tg.attr)
+            if k >= comps[tg.value.id + "/dim"]:
+                fn.fail(st, "component %s of a %d-dimensional vector" % (tg.attr, comps[tg.value.id + "/dim"]))
+            g = fresh(tg.value.id + "_" + tg.attr)
+            t = fn.tr_num(v, env)
+            c2 = dict(comps)
+            c2[tg.value.id] = list(comps[tg.value.id])
+            c2[tg.value.id][k] = g
+            return "(let %s := %s in %s)" % (g, t, go(rest, env, c2))
+        if isinstance(tg, ast.Name):
+            nm = tg.id
+            if isinstance(v, ast.Call) and T.dotted(v.func) == "Vec" and not v.keywords and len(v.args) in (2, 3) \
+                    and all(isinstance(x, ast.Constant) and type(x.value) in (int, float) and x.value == 0 for x in v.args):
+                c2 = dict(comps)
+                c2[nm] = ["(oofZ O 0)"] * 3
+                c2[nm + "/dim"] = len(v.args)
+                return go(rest, env.taint([nm]), c2)
+            if nm in comps:
+                fn.fail(st, "vector under construction is re-assigned")
+            kd, tm = fn.coord_value(v, env)
+            if kd == "opaque":
+                fn.fail(st, "untranslatable assignment in a geometry helper")
+            if kd == "vec" and isinstance(v, ast.Call) and T.dotted(v.func) == "Vec" and len(v.args) == 1 \
+                    and isinstance(v.args[0], ast.Name) and v.args[0].id == nm:
+                return go(rest, env, comps)          # x = Vec(x): the same value
+            g = fresh(nm)
+            return "(let %s := %s in %s)" % (g, tm, go(rest, env.bind(nm, kd, g), comps))
+        fn.fail(st, "unsupported assignment target in a geometry helper")
+
+    for n, k, d in fn.params:
+        if k not in ("vec", "float") or d is not None:
+            fn.fail(fn.node, "geometry helper parameter %s is not a plain vector or number" % n)
+    body = go(list(fn.body), fn.base_env(), {})
+    if fn.geom_deps:
+        fn.fail(fn.node, "geometry helper calls another geometry helper")
+    return "Definition geom_%s %s : vec T :=\n  %s.\n" % (fn.name, fn.coord_binders(), body)
+
+
+def geometry_helpers(deps, callers):
+    """the helpers of geometry/rotations.py that the generators call, translated from their current source; the generators
+    must reach them through `from ..geometry import ...` and must not shadow them"""
+    if not deps:
+        return [], []
+    src, tree = T.load(GEOM_REL)
+    isrc, itree = T.load(GEOM_INIT)
+    if not any(isinstance(n, ast.ImportFrom) and n.level == 1 and n.module == "rotations" and any(a.name == "*" for a in n.names)
+               for n in itree.body):
+        T.fail(GEOM_INIT, itree, "mouette.geometry does not re-export rotations.*")
+    for rel, ctree in callers:
+        for n in ctree.body:
+            if isinstance(n, (ast.FunctionDef, ast.ClassDef)) and n.name in deps:
+                T.fail(rel, n, "%s shadows the geometry helper of the same name" % n.name)
+            if isinstance(n, ast.Assign) and any(isinstance(t, ast.Name) and t.id in deps for t in n.targets):
+                T.fail(rel, n, "a geometry helper name is re-bound at module level")
+            if isinstance(n, ast.ImportFrom) and any((a.asname or a.name) in deps for a in n.names) \
+                    and not (n.level == 2 and n.module in ("geometry", "geometry.rotations")):
+                T.fail(rel, n, "a geometry helper name is imported from somewhere else")
+    texts, parts = [], []
+    for nm in sorted(deps):
+        fn = Fn(GEOM_REL, src, tree, nm)
+        texts.append("(* ---- %s:%s *)\n%s" % (GEOM_REL, nm, geometry_helper(fn)))
+        parts.append(("rotations.py:" + nm, T.sha(src, fn.node)))
+    return texts, parts
+
+
 def translate():
     """Returns (text of Gen.v, info) ; info[name] = signature data used by the harness."""
     parts, chunks, table, info = [], [], {}, {}
     loaded = {}
     iter_deps = set()
+    geom_deps = set()
     for rel, names in BUILDERS:
         if rel not in loaded:
             loaded[rel] = T.load(rel)
@@ -1594,6 +1739,7 @@ def translate():
             chunks.append("(* ---- %s:%s *)\n%s" % (rel, nm, text))
             table[nm] = fn
             iter_deps |= fn.iter_deps
+            geom_deps |= fn.geom_deps
     for rel, names in FORWARDERS:
         if rel not in loaded:
             loaded[rel] = T.load(rel)
@@ -1624,6 +1770,9 @@ def translate():
             text, h = gen_iterator(ITER_REL, src, tree, nm)
             parts.append(("iterators.py:" + nm, h))
             its.append(text)
+    gtexts, gparts = geometry_helpers(geom_deps, [(rel, loaded[rel][1]) for rel in loaded])
+    parts += gparts
+    its = gtexts + its
     # ---- dispatchers (used by the correspondence): code -> model functions on (ints, bools)
     names = [n for _, ns in BUILDERS for n in ns] + [n for _, ns in FORWARDERS for n in ns] + ["sphere_fibonacci"]
     table["sphere_fibonacci"] = fnf
